@@ -5,7 +5,7 @@ CONSTANTS
   Count = 1
   Stride = 7919
   Offset = 1
-  NS1 = 12
+  NS1 = 9
   MaxOps = 3
   MaxSuffixes = 32
   MaxSuffixLen = 127
